@@ -1095,6 +1095,10 @@ HLPread(accrec_t *access_rec, int32 length, void *datap)
     if (access_rec->posn + length > info->length)
         length = info->length - access_rec->posn;
 
+    /* nothing left to read: a zero length passed on to Hread() would mean "to the end of the block" */
+    if (length <= 0)
+        HGOTO_DONE(0);
+
     /* search for linked block to start reading from */
     if (relative_posn < info->first_length) { /* first block */
         block_idx      = 0;
